@@ -69,3 +69,14 @@ func VerifUnmarshalPublicKey(encodedKey []byte) (x, y []byte, err error) {
 	}
 	return pk.X.Bytes(), pk.Y.Bytes(), nil
 }
+
+// VerifResponseSecrets exposes what the client keeps for decrypting the issuer's response: the HPKE export secret
+// and the encapsulated key of the request.
+func (s RateLimitedTokenRequestState) VerifResponseSecrets() (encapSecret, encapEnc []byte) {
+	return s.encapSecret, s.encapEnc
+}
+
+// VerifFinalizeBlindSignature runs the blind-RSA finalization of the request state on a blind signature.
+func (s RateLimitedTokenRequestState) VerifFinalizeBlindSignature(blindSignature []byte) ([]byte, error) {
+	return s.verifier.Finalize(blindSignature)
+}
